@@ -450,6 +450,11 @@ pbt::GenCfg cfgFor(const std::string& prop, const hc::Args& a){
     if(prop == "C12"){ g.histories = true; g.lstops = true; }
     if(prop == "C08") g.twoGroupings = true;
     if(prop == "C16"){ g.queries = true; }
+    if(a.getInt("deep", 0)){
+        // deep trees: cell indices beyond 32 bits (the library's range is Dim*(H-1) <= 62 bits; heights <= 31, see F-DEEP-LEVEL)
+        static const int hdeep[5] = {0, 31, 24, 16, 12};
+        g.minH = hdeep[Dim] / 2; g.maxH = hdeep[Dim]; g.maxN = 40; g.lstops = false;
+    }
     if(prop == "C01" || prop == "C02") g.lstops = (a.getInt("lstops", 1) != 0);
     return g;
 }
